@@ -63,52 +63,3 @@ pub(crate) fn ref_derive<const K: usize>(leaf_hash: Hash, index: usize, proof: &
     }
     node
 }
-
-// ---------------------------------------------------------------------------------------
-// "havoc" hash: an over-approximation of SHA-256 for harnesses whose checks do not depend on
-// hash values.  Every call returns the next pre-drawn arbitrary 32 bytes: no consistency, no
-// injectivity, no assumption at all - every behaviour of the real function is included, so a
-// property shown under it holds for the real hash.  Much cheaper than the collision-free oracle.
-// ---------------------------------------------------------------------------------------
-pub(crate) const HAVOC_CAP: usize = 8;
-
-#[cfg(kani)]
-mod havoc {
-    pub(super) struct Ghost {
-        pub magic: [u64; 2],
-        pub n: usize,
-        pub tape: [[u64; 4]; super::HAVOC_CAP],
-    }
-    pub(super) static mut G: Ghost = Ghost { magic: [0xC13_4A70_C0DE_0001, 0x9E37_79B9_7F4A_7C15], n: 0, tape: [[0; 4]; super::HAVOC_CAP] };
-}
-
-/// Draws the outputs of the havoc hash (both modes, to keep the draw sequence aligned; natively
-/// the values are discarded because the real SHA-256 runs).
-pub(crate) fn init_havoc(n: usize) {
-    assert!(n <= HAVOC_CAP);
-    let mut i = 0;
-    while i < n {
-        let w = vs::any_words();
-        #[cfg(kani)]
-        #[allow(static_mut_refs)]
-        unsafe {
-            havoc::G.tape[i] = w;
-        }
-        let _ = w;
-        i += 1;
-    }
-}
-
-/// Stub target for `crate::crypto::hash::hash_all` (Kani only).
-#[cfg(kani)]
-#[allow(static_mut_refs)]
-pub(crate) fn hash_all_havoc(_data: &[&[u8]]) -> Hash {
-    unsafe {
-        let k = havoc::G.n;
-        if k >= HAVOC_CAP {
-            vs::unsupported("havoc hash: more calls than drawn outputs");
-        }
-        havoc::G.n = k + 1;
-        w2h(havoc::G.tape[k])
-    }
-}
